@@ -219,8 +219,8 @@ func driverSource(dir, name string) (string, error) {
 	sort.Slice(funcs, func(i, j int) bool { return funcs[i].name < funcs[j].name })
 	sort.Strings(types)
 	var b strings.Builder
-	fmt.Fprintf(&b, "package %s\n\nimport (\n\tverifctx \"context\"\n\tverifhttp \"net/http\"\n\tverifreflect \"reflect\"\n\tverifreg \"scratch/reg\"\n)\n\n", name)
-	b.WriteString("var _ = verifctx.Background\nvar _ verifhttp.Handler\nvar _ = verifreflect.TypeOf\n\n")
+	fmt.Fprintf(&b, "package %s\n\nimport (\n\tverifctx \"context\"\n\t\"io\"\n\tverifhttp \"net/http\"\n\tverifreflect \"reflect\"\n\tverifreg \"scratch/reg\"\n\t\"time\"\n)\n\n", name)
+	b.WriteString("var _ = verifctx.Background\nvar _ verifhttp.Handler\nvar _ = verifreflect.TypeOf\nvar _ io.Reader\nvar _ time.Time\n\n")
 	b.WriteString("func init() {\n")
 	fmt.Fprintf(&b, "\tp := &verifreg.Package{Name: %q}\n", name)
 	b.WriteString("\tp.Funcs = map[string]interface{}{\n")
